@@ -29,7 +29,9 @@
                                                    for the whole call), create_good,
                                                    create_walk (counter exact, the
                                                    walk ends after `count` names)
-  "unbalanced brackets … make the parse fail"      unbalanced_einval, token_ok_iff    every token, repaired
+  "unbalanced brackets … make the parse fail"      unbalanced_text_fails (whole text, every text, repaired
+                                                   spec's `balanced`),
+                                                   unbalanced_einval, token_ok_iff    every token, repaired
                                                    unmatched_open/close_einval        every cfg
   "reversed … ranges make the parse fail"          reversed_einval, item_invalid_iff, every item text
                                                    reversed_never_accepted
@@ -56,6 +58,7 @@ import PdshVerif.Hostlist.LemmasLimits
 import PdshVerif.Hostlist.LemmasAccept
 import PdshVerif.Hostlist.LemmasBounds
 import PdshVerif.Hostlist.LemmasGood
+import PdshVerif.Hostlist.LemmasUnbalanced
 
 namespace PdshVerif.C15
 open PdshVerif.Hostlist PdshVerif.Gen
@@ -427,6 +430,13 @@ theorem create_ok_iff (cfg : Cfg) (h15 : cfg.fixUlongMax = true) (h16 : cfg.fixD
     (∃ h, create cfg s = .ok h) ↔ ∀ t ∈ tokens hlSep s, tokOk t :=
   Hostlist.create_ok_iff cfg h15 h16 h18 h22 s
 
+/-- UNBALANCED TEXT ⇒ FAILURE, whole-text level, against the SPEC's own predicate `Spec.balanced`
+    (written without the model): a text whose brackets do not match anywhere is refused -/
+theorem unbalanced_text_fails (cfg : Cfg) (h15 : cfg.fixUlongMax = true) (h16 : cfg.fixDigits = true)
+    (h18 : cfg.fixCurTok = true) (h22 : cfg.fixSuffixBal = true) (s : Str)
+    (hu : Spec.balanced 0 s = false) : ∃ e f, create cfg s = .null e f :=
+  Hostlist.unbalanced_text_fails cfg h15 h16 h18 h22 s hu
+
 /-! ## limits and bounds that hold in EVERY variant, for every text -/
 
 /-- `struct _range ranges[MAX_RANGES]`: the parser writes `ranges[count++]` only for
@@ -514,4 +524,6 @@ example : ∃ h, create Cfg.repaired "a[1-3,7]x, b".toList = .ok h :=
 /-- and one refused (second token unbalanced), through the same theorem -/
 example : ¬ ∃ h, create Cfg.repaired "a[1-3] b]".toList = .ok h := by
   rw [PdshVerif.C15.create_ok_iff Cfg.repaired rfl rfl rfl rfl]; decide
+example : ∃ e f, create Cfg.repaired "a[1-3] b]".toList = .null e f :=
+  PdshVerif.C15.unbalanced_text_fails Cfg.repaired rfl rfl rfl rfl _ (by decide)
 end Examples15
